@@ -59,14 +59,18 @@ type treeCase struct {
 }
 
 func (c *treeCase) input() string {
-	h := c.hist
+	// as much of the tail of the history as fits the report (Run.Fail cuts at 4000 bytes)
+	n, start := 0, len(c.hist)
+	for start > 0 && n+len(c.hist[start-1])+2 < 3500 {
+		start--
+		n += len(c.hist[start]) + 2
+	}
 	pre := ""
-	if len(h) > 60 {
-		pre = fmt.Sprintf("…(%d earlier ops; regenerate with the seed) ", len(h)-60)
-		h = h[len(h)-60:]
+	if start > 0 {
+		pre = fmt.Sprintf("…(%d earlier ops; regenerate with the seed) ", start)
 	}
 	return fmt.Sprintf("stream seed=%d case=%d kind=%s pageSize=%d maxKeys=%d persistent=%v: %s%s",
-		c.r.Seed, c.id, c.kind, c.ps, c.mk, c.path != "", pre, strings.Join(h, "; "))
+		c.r.Seed, c.id, c.kind, c.ps, c.mk, c.path != "", pre, strings.Join(c.hist[start:], "; "))
 }
 
 func (c *treeCase) fail(props []string, what string) {
@@ -76,6 +80,15 @@ func (c *treeCase) fail(props []string, what string) {
 }
 
 var bothTreeProps = []string{"C10", "C16"}
+
+// mapProps: a wrong mapping violates C10; on a tree that went through Close + reopen it also
+// violates C16 ("the reopened tree continues to behave as a correct map").
+func (c *treeCase) mapProps() []string {
+	if c.reopened > 0 {
+		return bothTreeProps
+	}
+	return []string{"C10"}
+}
 
 // guard runs f and reports a panic of the implementation.
 func (c *treeCase) guard(what string, f func()) (panicked bool) {
@@ -106,6 +119,15 @@ func (c *treeCase) op(s string) {
 	c.hist = append(c.hist, s)
 	c.nops++
 	c.sinceW++
+	// package z asserts with log.Fatal, which cannot be recovered: leave a trail on stdout so that
+	// a crashed run still names the operation (the check quotes the tail of the output).
+	if c.nops == 1 {
+		fmt.Printf("tree harness: seed=%d case=%d kind=%s pageSize=%d persistent=%v; operations:\n", c.r.Seed, c.id, c.kind, c.ps, c.path != "")
+	}
+	fmt.Printf("%s;", s)
+	if c.nops%8 == 0 {
+		fmt.Println()
+	}
 }
 
 // Set with the reference update and an immediate read-back.
@@ -175,7 +197,7 @@ func (c *treeCase) get(k uint64) {
 	c.r.Emit("get %d %d", k, got)
 	c.r.Count("get")
 	if want := c.ref[k]; got != want {
-		c.fail([]string{"C10"}, fmt.Sprintf("Get(%d) = %d, the reference map says %d", k, got, want))
+		c.fail(c.mapProps(), fmt.Sprintf("Get(%d) = %d, the reference map says %d", k, got, want))
 	}
 }
 
@@ -249,6 +271,7 @@ func (c *treeCase) deleteBelow(ts uint64) {
 		c.r.Count("del_removed_some")
 	}
 	c.emitStats()
+	c.walk()       // DeleteBelow rebuilds the page structure: always compare it (and look for nil children)
 	c.sweep(false) // exactness: the removed keys read 0, all others are unchanged
 }
 
@@ -284,12 +307,12 @@ func (c *treeCase) iterate(mod uint64, salt uint64) {
 	for _, x := range seen {
 		visited[x.k]++
 		if want, ok := c.ref[x.k]; !ok || want != x.v {
-			c.fail([]string{"C10"}, fmt.Sprintf("IterateKV handed (%d,%d) to the callback, the reference map says %d (0 = absent)", x.k, x.v, c.ref[x.k]))
+			c.fail(c.mapProps(), fmt.Sprintf("IterateKV handed (%d,%d) to the callback, the reference map says %d (0 = absent)", x.k, x.v, c.ref[x.k]))
 		}
 	}
 	for k, n := range visited {
 		if n != 1 {
-			c.fail([]string{"C10"}, fmt.Sprintf("IterateKV visited key %d %d times", k, n))
+			c.fail(c.mapProps(), fmt.Sprintf("IterateKV visited key %d %d times", k, n))
 		}
 	}
 	if len(visited) != len(c.ref) {
@@ -303,7 +326,7 @@ func (c *treeCase) iterate(mod uint64, salt uint64) {
 		if len(missing) > 5 {
 			missing = missing[:5]
 		}
-		c.fail([]string{"C10"}, fmt.Sprintf("IterateKV visited %d keys, %d are live; not visited e.g. %v", len(visited), len(c.ref), missing))
+		c.fail(c.mapProps(), fmt.Sprintf("IterateKV visited %d keys, %d are live; not visited e.g. %v", len(visited), len(c.ref), missing))
 	}
 	rew := 0
 	for _, x := range seen {
@@ -392,6 +415,15 @@ func (c *treeCase) checkPages(w z.VerifTreeWalk) {
 		owner[n.Pid] = "a node"
 		if n.Leaf {
 			leafKeys += n.N
+		} else {
+			for i := 0; i < n.N; i++ {
+				if n.KV[2*i+1] == 0 {
+					// Get / IterateKV of a key routed to this entry would run into assert(child != nil),
+					// which is log.Fatal in package z: stop using this tree.
+					c.dead = true
+					c.fail(bothTreeProps, fmt.Sprintf("inner page %d keeps key %d without a child page (Get of a key routed there aborts the process in assert(child != nil))", n.Pid, n.KV[2*i]))
+				}
+			}
 		}
 	}
 	for _, p := range w.Free {
